@@ -8,7 +8,9 @@
                f<salt>:<payload>  WriteTo(payload) whose inner write fails
                j<hex> / e<hex>    raw datagram on the reader's inner socket (e: with an inner error)
         the address of item k (1-based) is k
-   conc <key> <cap> <hex@port,…>  → conc n=<deliveries> dl=<fnv64 of the deliveries sorted by address> -/
+   conc <key> <cap> <hex@port,…>  → conc n=<deliveries> dl=<fnv64 of the deliveries sorted by address>
+   duplex <key> <cap> <hex@port,…> <salt:payload,…>
+                                  → duplex in=<n>:<fnv64 of the deliveries in queue order> out=<n>:<fnv64 of the wires> -/
 import Hy.Model.Salamander
 import Hy.Crypto.Blake2b
 import Hy.Drv.Util
@@ -64,6 +66,14 @@ def parseAt (s : String) : Option Inc :=
     pure { data := d, addr := port, err := false }
   | _ => none
 
+def parseWr (s : String) : Option (Bytes × Bytes) :=
+  match s.splitOn ":" with
+  | [a, b] => do
+    let salt ← ofHex a
+    let p ← ofHex b
+    pure (salt, p)
+  | _ => none
+
 def fnv (h : UInt64) (bs : Bytes) : UInt64 :=
   bs.foldl (fun h b => (h ^^^ UInt64.ofNat b.val) * 0x100000001b3) h
 
@@ -98,6 +108,17 @@ def step (line : String) : String :=
       let ds := (deliveries blake2b256 k cap q).mergeSort (fun a b => a.addr ≤ b.addr)
       s!"conc n={ds.length} dl={hex16 (digest ds)}"
     | _, _, _ => "bad-op"
+  | ["duplex", k, cap, inb, outb] =>
+    match ofHex k, cap.toNat?, (if inb = "." then some [] else (inb.splitOn ",").mapM parseAt),
+          (if outb = "." then some [] else (outb.splitOn ",").mapM parseWr) with
+    | some k, some cap, some q, some ws =>
+      if !accepts k then "refused" else
+      let ds := deliveries blake2b256 k cap q
+      let h := ws.foldl (fun h (sp : Bytes × Bytes) =>
+        let w := (writeTo blake2b256 k sp.1 sp.2 false).wire
+        fnv (fnv h (be32 w.length)) w) 0xcbf29ce484222325
+      s!"duplex in={ds.length}:{hex16 (digest ds)} out={ws.length}:{hex16 h}"
+    | _, _, _, _ => "bad-op"
   | _ => "bad-op"
 
 end Hy.Drv.Salamander
